@@ -114,12 +114,18 @@ TodayOff(sc, s, a) == Overnight(sc) /\ ((s = sc.ds /\ a = "p") \/ (s = sc.de /\ 
 \* Part 4 - queries, and the calendar object with its history
 \* =============================================================================================
 \* A query is a record [op, d, s, a, ex, ds, de]: the instant <<d, s>>, a \in {"f", "p", ""}, ex = 1
-\* when the call names its session bounds (ds, de), ex = 0 when it leaves them to the defaults.
+\* when the call names its session bounds (ds, de), ex = 0 when it leaves them to the defaults, ex = 2
+\* when it names day_start only, ex = 3 day_end only (the other bound is the default's).
+\* Named deviation MaskNeedsBothBounds: what mask answers when only one bound is named is not pinned
+\* (today's code ignores the one bound and returns the business-day mask); such masks are not asked.
 \*   trade_date(t, a, ..)   is_trading(t, ..)
 \*   mask([t - 1 day, t, t + 1 day], ..)  with bounds: in trading; without bounds: business days
 \* Answers are sequences of integers (days as ordinals, booleans as 0/1).
 DefaultSession == [ds |-> 0, de |-> 86399]
-Eff(defs, q) == IF q.ex = 1 THEN [ds |-> q.ds, de |-> q.de] ELSE defs
+Eff(defs, q) == CASE q.ex = 1 -> [ds |-> q.ds, de |-> q.de]
+                  [] q.ex = 2 -> [ds |-> q.ds, de |-> defs.de]
+                  [] q.ex = 3 -> [ds |-> defs.ds, de |-> q.de]
+                  [] OTHER -> defs
 QInst(q) == <<q.d, q.s>>
 SAnswer(c, defs, q) ==
     LET sc == Eff(defs, q)  t == QInst(q) IN
@@ -131,7 +137,7 @@ SQDomain(c, defs, q) ==
     LET sc == Eff(defs, q) IN
     CASE q.op = "trade_date" -> q.a \in {"f", "p"} /\ SessDomain(c, sc, QInst(q))
       [] q.op = "is_trading" -> AllIn(c, {q.d - 1, q.d, q.d + 1})
-      [] q.op = "mask"       -> AllIn(c, {q.d - 2, q.d - 1, q.d, q.d + 1, q.d + 2})
+      [] q.op = "mask"       -> q.ex \in {0, 1} /\ AllIn(c, {q.d - 2, q.d - 1, q.d, q.d + 1, q.d + 2})
 \* what the code computes; it never looks at the table
 SMech(c, defs, q, closed) ==
     LET sc == Eff(defs, q)  t == QInst(q) IN
